@@ -21,7 +21,8 @@ package identity
 //@   ensures old(i.versions[0].id) != entity.UnsetId ==> i.versions[0].id == old(i.versions[0].id)
 
 //@ func (*Identity).Merge
-//@   props C09 C02
+//@   props C09 C02 C15
+//@   ensures [own-namespace-only] forall k string :: { (k in repository.refs) } !strings.HasPrefix(k, "refs/identities/") ==> (k in repository.refs) == (k in old(repository.refs)) && repository.refs[k] == old(repository.refs)[k]
 //@   nopanic
 //@   modifies i.versions, elems(i.versions), repository.refs, i.versions[0].id, other.versions[0].id
 //@   opt trusted_frame
@@ -133,10 +134,12 @@ package identity
 // error) may end the stream early - an invalid or diverged remote identity must not keep the others from
 // being merged (C02).
 //@ func MergeAll$1
-//@   props C02 C09
+//@   props C02 C09 C15
 //@   requires repo != nil
+//@   ensures [own-namespace-only] forall k string :: { (k in repository.refs) } !strings.HasPrefix(k, "refs/identities/") ==> (k in repository.refs) == (k in old(repository.refs)) && repository.refs[k] == old(repository.refs)[k]
 //@   check [invalid-does-not-stop] sentcount(out) == len(remoteRefs) || (sentcount(out) > 0 && (sentat(out, sentcount(out) - 1).Status == entity.MergeStatusError || sentat(out, sentcount(out) - 1).Err != nil))
 //@   loop 1
+//@     invariant [own-namespace-only] forall k string :: { (k in repository.refs) } !strings.HasPrefix(k, "refs/identities/") ==> (k in repository.refs) == (k in old(repository.refs)) && repository.refs[k] == old(repository.refs)[k]
 //@     invariant sentcount(out) == rangeindex + 1
 
 // Building the OpenPGP entity used to verify (or make) signatures must work for every key of a stored
@@ -165,7 +168,7 @@ package identity
 // Removing an identity (C14): when Remove reports success the local ref and the remote-tracking ref of every
 // configured remote are gone; only refs that start with one of those names are touched.
 //@ func Remove
-//@   props C14
+//@   props C14 C15
 //@   requires repo != nil
 //@   let sid = string(id)
 //@   let local = "refs/identities/" + sid
@@ -210,7 +213,8 @@ package identity
 //@   trusted
 //@   modifies nothing
 //@ func (*Identity).Commit
-//@   props C06
+//@   props C06 C15
+//@   ensures [own-namespace-only] forall k string :: { (k in repository.refs) } !strings.HasPrefix(k, "refs/identities/") ==> (k in repository.refs) == (k in old(repository.refs)) && repository.refs[k] == old(repository.refs)[k]
 //@   requires i != nil && repo != nil
 //@   requires [versions-set] forall k int :: { i.versions[k] } 0 <= k && k < len(i.versions) ==> i.versions[k] != nil
 //@   let refs0 = old(repository.refs)
